@@ -14,3 +14,5 @@ func raceReleaseMerge(p unsafe.Pointer) {}
 
 func RaceAcquire(p unsafe.Pointer) {}
 func RaceRelease(p unsafe.Pointer) {}
+
+func RaceErrors() int { return 0 }
